@@ -330,7 +330,7 @@ def gen_regs(rnd):
         elif ty == LIST:
             d = rnd.choice([[], ["d1"], ["d1", "d2"], ["p"]])
         elif ty == INADDR:
-            d = rnd.choice([["dh", "ds"], ["H1", "80"], [None, None]])
+            d = rnd.choice([["dh", "ds"], ["H1", "80"], [None, None], [None, "7700"], ["anyhost", None]])
         else:
             d = None
         path = parents + [k]
